@@ -106,7 +106,7 @@ def main():
         },
         "engines": [
             {"name": "HIST", "path": "internal/world + internal/props", "serves_properties": [p for p in sorted(CHECKS) if CHECKS[p][0].startswith("HIST")], "kind_free_text": "one task, sequential op history against the reference model, one fresh world process per episode"},
-            {"name": "CONC", "path": "internal/world/sched.go", "serves_properties": [p for p in sorted(CHECKS) if "CONC" in CHECKS[p][0]], "kind_free_text": "many tasks under the seeded scheduler (one released at a time, yields at user callbacks; locks, channel operations, selects, sync.Cond and sync.WaitGroup of package slog report 'would block' to it through overlay rules R5/R7), destination faults (error, partial, short, stall, stall-then-error, hang); race-transparent variant under the Go race detector"},
+            {"name": "CONC", "path": "internal/world/sched.go", "serves_properties": [p for p in sorted(CHECKS) if "CONC" in CHECKS[p][0]], "kind_free_text": "many tasks under the seeded scheduler (one released at a time, yields at user callbacks; locks, channel operations, selects, sync.Cond and sync.WaitGroup of package slog report 'would block' to it through overlay rules R5/R7; goroutines the library starts itself are tasks too, rule R8), destination faults (error, partial, short, stall, stall-then-error, hang); race-transparent variant under the Go race detector"},
             {"name": "PROC", "path": "internal/orch/runner.go", "serves_properties": [p for p in sorted(CHECKS) if "PROC" in CHECKS[p][0]], "kind_free_text": "observations from outside the process: exit status, durable bytes at death, fd 1/2, process mode"},
             {"name": "BUF", "path": "internal/world/buf.go", "serves_properties": [p for p in sorted(CHECKS) if "BUF" in CHECKS[p][0]], "kind_free_text": "PrintCtx vs bytes.Buffer in lock-step with fault-injecting readers/writers"},
         ],
